@@ -127,9 +127,9 @@ def finish(out):
         for s in out.inconclusive:
             print('INCONCLUSIVE property=%s %s' % (out.prop, s))
         return EXIT_INCONCLUSIVE
-    print('OK property=%s tier=%s paths=%d verdicts=%d (unsat %d) solver=%.1fs wall=%.1fs' %
-          (out.prop, out.tier, st['paths'], st['verdict_queries'], st['verdict_unsat'], st['solver_s'],
-           time.time() - out.t0))
+    print('OK property=%s tier=%s paths=%d solver-verdicts=%d (unsat %d) closed-by-normal-form=%d solver=%.1fs '
+          'wall=%.1fs' % (out.prop, out.tier, st['paths'], st['verdict_queries'], st['verdict_unsat'],
+                        st.get('verdict_trivial', 0), st['solver_s'], time.time() - out.t0))
     return EXIT_OK
 
 
